@@ -21,6 +21,18 @@ def gen_cases(ctx, n_simple, n_hard):
     cases += [mapcase.gen_shard_case(ctx.rng) for _ in range(ctx.scale(8, 80))]
     # delimited text files (comma / semicolon / tab) whose cells are words that readers like to interpret (NA, None, NULL, 0071, 1.50, true)
     cases += [mapcase.gen_words_case(ctx.rng) for _ in range(ctx.scale(12, 100))]
+    # templates with escaped braces over cell values that themselves hold backslash-brace sequences: the term is built verbatim from the values
+    for _ in range(ctx.scale(10, 80)):
+        def tmz(k, v, ck='iri', tt=''):
+            return {'k': k, 'v': v, 'ck': ck, 'tt': tt}
+        vals = ['set\\}theory', 'x\\{y', 'a\\{b\\}', 'plain', '{}', 'back\\slash']
+        rows = [[str(i + 1), ctx.rng.choice(vals), ctx.rng.choice(vals)] for i in range(ctx.rng.choice([2, 3, 4]))]
+        tpl = ctx.rng.choice(['\\{{v}\\}', 'a\\{b\\}-{v}', '{v}\\}{w}', 'n\\{{w}'])
+        obj = {'m': tmz('templ', tpl, 'iri', ctx.rng.choice(['lit', 'lit', 'bnode'])), 'lang': None, 'dt': None, 'joins': []}
+        cases.append({'cfg': {'nquads': ctx.rng.random() < 0.5, 'mode': ctx.rng.choice(['NO', 'PARTIAL-AGGREGATIONS', 'MAXIMAL'])},
+                      'sources': [{'key': 'S0', 'kind': 'csv', 'cols': ['id', 'v', 'w'], 'rows': rows}],
+                      'doc': [{'id': mapcase.EX + 'tm/T', 'src': 'S0', 'nonasserted': False, 'subj': tmz('templ', mapcase.EX + 'r/{id}'), 'sjoins': [], 'classes': [], 'sgraphs': [],
+                               'poms': [{'preds': [tmz('const', mapcase.EX + 'p/p')], 'objs': [obj], 'graphs': []}]}]})
     # a few runs with two worker processes (the library's multi-process path)
     for c in cases:
         if ctx.rng.random() < 0.05:
